@@ -1,6 +1,6 @@
 from ..framework import Spec
 from ..ties_sys import layout_tie, layout_isa_tie, layout_oracle, layout_scenario_tie
-from ..scenarios import gen_label_scenario
+from ..scenarios import gen_label_scenario, gen_embedded_label_scenario, gen_zone_top_scenario
 from ..ties_lines import line_parts_tie
 
 SPEC = Spec(pid='C18', coq_needs=['Base', 'Program', 'Match', 'ProgramIsa', 'Lines', 'LinesProofs', 'Properties/C18'],
@@ -8,5 +8,8 @@ SPEC = Spec(pid='C18', coq_needs=['Base', 'Program', 'Match', 'ProgramIsa', 'Lin
                   # the line splitter (statement text / comment) of Lines.v against the real reader
                   line_parts_tie(),
                   # a label in front of the statement it labels vs on its own line: which region the statement belongs to
-                  layout_scenario_tie('label_lines', gen_label_scenario, 150, 2500)],
+                  layout_scenario_tie('label_lines', gen_label_scenario, 150, 2500),
+                  # labels in front of embedded strings; comment lines behind the last byte of a full zone
+                  layout_scenario_tie('embedded_labels', gen_embedded_label_scenario, 60, 800),
+                  layout_scenario_tie('zone_top_layout', gen_zone_top_scenario, 120, 1500)],
             oracles=[layout_oracle()])
